@@ -206,7 +206,7 @@ def k_c05(ctx):
                 bad = ("K.accept", "model and code disagree: %s" % (kd[0][1:],))
             if bad is None: continue
             ctx.disagreements_checked += 1
-            if rr.get("stage") == "panic" and "overflow" in rr.get("error", "").lower():
+            if rr.get("stage") == "panic" and "overflow" in rr.get("error", "").lower() and classes.extreme_magnitudes(ledger.render(lines)):
                 kt = load_known_text("C05", "kf_decimal_overflow")
                 if kt: ctx.known(kt); continue
             if bad[0] == "covered_refused" and classes.kf_inexact_ratio_chain(lines):
